@@ -160,6 +160,16 @@ impl SteppedAccept {
             .any(|s| s.token == token && s.timeout.is_some())
     }
 
+    /// How long from now each listener's error back-off still lasts (token, remaining time);
+    /// listeners that are not backing off are not listed.
+    pub fn socket_backoff_remaining(&self) -> Vec<(usize, Duration)> {
+        let now = actix_rt::time::Instant::now();
+        self.sockets
+            .iter()
+            .filter_map(|s| s.timeout.map(|t| (s.token, t.saturating_duration_since(now))))
+            .collect()
+    }
+
     pub fn listener_tokens(&self) -> Vec<usize> {
         self.sockets.iter().map(|s| s.token).collect()
     }
